@@ -26,6 +26,10 @@ func (s pendingTimeout) Timeout(session *session, event internal.Event) (nextSta
 	case internal.PeerTimeout:
 		session.log.OnEvent("Session Timeout")
 		return latentState{}
+	case internal.NeedHeartbeat:
+		// The heartbeat timer is one-shot and only re-armed by a send. Keep it running
+		// while the test request is outstanding so heartbeats resume once it is answered.
+		session.stateTimer.Reset(session.HeartBtInt)
 	}
 
 	return s
